@@ -125,6 +125,9 @@ var c04ConcCheck = register("C04", "c04.concurrent", func(c *concSeedCase) error
 		if !bytes.Equal(got, want[*i]) {
 			return failf("C04 seed value", "MnemonicToSeed(%s, %s) =\n  %x, BIP39 says\n  %x", short(string(sc.M)), short(string(sc.P)), got, want[*i])
 		}
+		for k := range got { // the caller wipes its seed after use: the slice is the caller's
+			got[k] = 0
+		}
 		return nil
 	})
 })
@@ -231,6 +234,12 @@ func TestC04_Concurrent(t *testing.T) {
 		cov.Class("concurrent-batch")
 		cov.NonTrivial("c04.concurrent", []byte(fmt.Sprint(round, cfg.Tier)))
 		judge(t, "c04.concurrent", c04ConcCheck, c)
+		// all goroutines derive the same pair at once, again and again (each wipes its result)
+		same := &concSeedCase{Cases: cases[round%2 : round%2+1], Goroutines: 16, Rounds: pick(60, 300)}
+		cov.Eval(same.Goroutines * same.Rounds)
+		cov.Class("concurrent-same-pair")
+		cov.NonTrivial("c04.concurrent-same", []byte(fmt.Sprint(round, cfg.Tier)))
+		judge(t, "c04.concurrent", c04ConcCheck, same)
 	}
 }
 
